@@ -7,13 +7,13 @@ package main
 
 import (
 	"context"
-	"io"
-	"regexp"
 	"encoding/json"
 	"fmt"
+	"io"
 	"os"
 	"os/exec"
 	"path/filepath"
+	"regexp"
 	"sort"
 	"strings"
 	"syscall"
